@@ -211,6 +211,9 @@ theorem targeted_filter_eval (w : World) {inv : Inventory} {r : Rule} {ns : List
     evalFilter (instEnv w r t i) r.filter = some (ns.contains t) := by
   have hb := instances_binds his i hi
   unfold targetedNames at hns
+  split at hns
+  · cases hns
+  rename_i hnofor
   cases htg : r.tgt with
   | host =>
     rw [htg] at ht hns
@@ -393,11 +396,6 @@ theorem bindAll_mono {l : List (String × Val)} {f g : String → Option Val}
     split
     · exact id
     · exact h x v
-
-/-- the names `FilterUtility::EvaluateFilter` binds for a target of the type -/
-def apiBound : TgtType → List String
-  | .host => ["obj", "host"] ++ navNames
-  | .service => ["obj", "service", "host"] ++ navNames
 
 /-- no `filter_vars` key is one of the names the evaluator binds itself -/
 def FvarsDisjoint (ty : TgtType) (fvars : Option (List (String × Val))) : Prop :=
@@ -684,5 +682,470 @@ theorem indexedOutcomes_perm (w : World) {r₁ r₂ : Rules} {i₁ i₂ : Invent
     o ∈ indexedOutcomes w r₁ i₁ ↔ o ∈ indexedOutcomes w r₂ i₂ := by
   simp only [indexedOutcomes, indexedOn, List.mem_flatMap, List.mem_append, List.mem_filter,
     mem_allTargets_perm hh hs, hr.mem_iff]
+
+/-! ### inventories with the same members -/
+
+/-- same hosts and same services, as sets -/
+def InvEquiv (i₁ i₂ : Inventory) : Prop :=
+  (∀ h, h ∈ i₁.hosts ↔ h ∈ i₂.hosts) ∧ (∀ s, s ∈ i₁.services ↔ s ∈ i₂.services)
+
+theorem InvEquiv.refl (i : Inventory) : InvEquiv i i := ⟨fun _ => Iff.rfl, fun _ => Iff.rfl⟩
+
+theorem mem_targets_equiv {i₁ i₂ : Inventory} (h : InvEquiv i₁ i₂) (ty : TgtType) (t : Val) :
+    t ∈ targets i₁ ty ↔ t ∈ targets i₂ ty := by
+  cases ty <;> simp only [targets, List.mem_map, h.1, h.2]
+
+theorem mem_allTargets_equiv {i₁ i₂ : Inventory} (h : InvEquiv i₁ i₂) (t : Val) :
+    t ∈ allTargets i₁ ↔ t ∈ allTargets i₂ := by
+  simp only [allTargets, List.mem_append, mem_targets_equiv h]
+
+theorem plainOutcomes_equiv (w : World) {r₁ r₂ : Rules} {i₁ i₂ : Inventory} (hr : ∀ p, p ∈ r₁ ↔ p ∈ r₂)
+    (hi : InvEquiv i₁ i₂) (o : Outcome) : o ∈ plainOutcomes w r₁ i₁ ↔ o ∈ plainOutcomes w r₂ i₂ := by
+  simp only [mem_plainOutcomes, mem_allTargets_equiv hi, hr]
+
+theorem indexedOutcomes_equiv (w : World) {r₁ r₂ : Rules} {i₁ i₂ : Inventory} (hr : ∀ p, p ∈ r₁ ↔ p ∈ r₂)
+    (hi : InvEquiv i₁ i₂) (o : Outcome) : o ∈ indexedOutcomes w r₁ i₁ ↔ o ∈ indexedOutcomes w r₂ i₂ := by
+  simp only [indexedOutcomes, indexedOn, List.mem_flatMap, List.mem_append, List.mem_filter,
+    mem_allTargets_equiv hi, hr]
+
+theorem LoadResult.Equiv.symm {a b : LoadResult} (h : a.Equiv b) : b.Equiv a := by
+  cases a <;> cases b <;> simp_all [LoadResult.Equiv]
+
+theorem LoadResult.Equiv.trans {a b c : LoadResult} (h₁ : a.Equiv b) (h₂ : b.Equiv c) : a.Equiv c := by
+  cases a <;> cases b <;> cases c <;> simp_all [LoadResult.Equiv]
+
+/-! ### the cascade -/
+
+theorem mem_createdServices {os : List Outcome} {p : String × String} :
+    p ∈ createdServices os ↔ ∃ c, Outcome.create c ∈ os ∧ c.src = .service ∧ p = (targetHostName c.target, c.name) := by
+  simp only [createdServices, List.mem_filterMap]
+  constructor
+  · rintro ⟨o, ho, hm⟩
+    cases o with
+    | create c =>
+      simp only at hm
+      split at hm
+      · next hs => cases hm; exact ⟨c, ho, hs, rfl⟩
+      · cases hm
+    | error => cases hm
+    | skip => cases hm
+  · rintro ⟨c, hc, hs, rfl⟩
+    exact ⟨_, hc, by simp [hs]⟩
+
+theorem extend_equiv {inv : Inventory} {os₁ os₂ : List Outcome}
+    (h : ∀ o, o ≠ Outcome.skip → (o ∈ os₁ ↔ o ∈ os₂)) : InvEquiv (extend inv os₁) (extend inv os₂) := by
+  refine ⟨fun _ => Iff.rfl, fun s => ?_⟩
+  simp only [extend, List.mem_append, mem_createdServices]
+  constructor
+  · rintro (h1 | ⟨c, hc, hr⟩)
+    · exact Or.inl h1
+    · exact Or.inr ⟨c, (h _ (by simp)).mp hc, hr⟩
+  · rintro (h1 | ⟨c, hc, hr⟩)
+    · exact Or.inl h1
+    · exact Or.inr ⟨c, (h _ (by simp)).mpr hc, hr⟩
+
+theorem targets_subset_extend {inv : Inventory} {os : List Outcome} {ty : TgtType} {t : Val}
+    (h : t ∈ targets inv ty) : t ∈ targets (extend inv os) ty := by
+  cases ty with
+  | host => exact h
+  | service =>
+    simp only [targets, extend, List.mem_map, List.mem_append] at h ⊢
+    obtain ⟨p, hp, rfl⟩ := h
+    exact ⟨p, Or.inl hp, rfl⟩
+
+theorem IndexSafe.of_extend {inv : Inventory} {os : List Outcome} {r : Rule} (h : IndexSafe (extend inv os) r) :
+    IndexSafe inv r := fun ht => ⟨(h ht).1, fun t hm => (h ht).2 t (targets_subset_extend hm)⟩
+
+theorem IndexSafe.of_equiv {i₁ i₂ : Inventory} (hi : InvEquiv i₁ i₂) {r : Rule} (h : IndexSafe i₁ r) :
+    IndexSafe i₂ r := fun ht => ⟨(h ht).1, fun t hm => (h ht).2 t ((mem_targets_equiv hi _ t).mpr hm)⟩
+
+theorem indexedOutcomes_iff_plainOutcomes (w : World) {rules : Rules} {inv : Inventory}
+    (hsafe : ∀ p ∈ rules, IndexSafe inv p.2) (o : Outcome) (ho : o ≠ .skip) :
+    o ∈ indexedOutcomes w rules inv ↔ o ∈ plainOutcomes w rules inv := by
+  simp only [indexedOutcomes, plainOutcomes, List.mem_flatMap]
+  constructor
+  · rintro ⟨t, ht, hm⟩; exact ⟨t, ht, (indexedOn_iff_plainOn w hsafe ht o ho).mp hm⟩
+  · rintro ⟨t, ht, hm⟩; exact ⟨t, ht, (indexedOn_iff_plainOn w hsafe ht o ho).mpr hm⟩
+
+/-! ### the declarative reading agrees with plain evaluation wherever it is defined -/
+
+def Evaluates (env : Env) (e : Expr) : Prop := ∃ v, eval env e = some v
+
+theorem foldl_or_evaluates {env : Env} : ∀ (es : List Expr) (e : Expr),
+    Evaluates env e → (∀ a ∈ es, Evaluates env a) → Evaluates env (es.foldl Expr.or e) := by
+  intro es
+  induction es with
+  | nil => intro e he _; exact he
+  | cons x es ih =>
+    intro e he hall
+    simp only [List.foldl_cons]
+    apply ih
+    · obtain ⟨v, hv⟩ := he
+      obtain ⟨u, hu⟩ := hall x List.mem_cons_self
+      by_cases ht : v.truthy = true
+      · exact ⟨v, by simp [eval, hv, ht]⟩
+      · exact ⟨u, by simp [eval, hv, ht, hu]⟩
+    · exact fun a ha => hall a (List.mem_cons_of_mem _ ha)
+
+theorem orAll_evaluates {env : Env} {es : List Expr} {e : Expr} (h : orAll es = some e)
+    (hall : ∀ a ∈ es, Evaluates env a) : Evaluates env e := by
+  cases es with
+  | nil => cases h
+  | cons x xs =>
+    simp only [orAll, Option.some.injEq] at h
+    subst h
+    exact foldl_or_evaluates xs x (hall x List.mem_cons_self) fun a ha => hall a (List.mem_cons_of_mem _ ha)
+
+theorem filter_evaluates {env : Env} {r : Rule} (ha : ∀ a ∈ r.assign, Evaluates env a)
+    (hi : ∀ g ∈ r.ignore, Evaluates env g) : ∃ b, evalFilter env r.filter = some b := by
+  have hA : Evaluates env ((orAll r.assign).getD (.lit (.bool true))) := by
+    cases h : orAll r.assign with
+    | none => exact ⟨.bool true, by simp [eval]⟩
+    | some e => simpa using orAll_evaluates h ha
+  obtain ⟨va, hva⟩ := hA
+  unfold evalFilter Rule.filter
+  cases h : orAll r.ignore with
+  | none => exact ⟨va.truthy, by simp [hva]⟩
+  | some ig =>
+    obtain ⟨vi, hvi⟩ := orAll_evaluates h hi
+    by_cases ht : va.truthy = true
+    · refine ⟨!vi.truthy, ?_⟩
+      simp only [eval, hva, Option.bind_some, ht, if_true, hvi, Option.map_some]
+      rfl
+    · exact ⟨va.truthy, by simp [eval, hva, ht]⟩
+
+theorem evalFilter_ne_none_iff {env : Env} {e : Expr} : evalFilter env e ≠ none ↔ Evaluates env e := by
+  unfold evalFilter Evaluates
+  cases eval env e <;> simp
+
+theorem evalFilter_some_true_iff {env : Env} {e : Expr} : evalFilter env e = some true ↔ Truthy env e := by
+  unfold evalFilter Truthy
+  cases eval env e <;> simp
+
+theorem matchDecl_spec {env : Env} {r : Rule} {b : Bool} (h : matchDecl env r = some b) :
+    (∀ a ∈ r.assign, Evaluates env a) ∧ (∀ g ∈ r.ignore, Evaluates env g) ∧ (b = true ↔ Matches env r) := by
+  unfold matchDecl at h
+  simp only at h
+  split at h
+  · cases h
+  · next hne =>
+    simp only [Bool.or_eq_true, List.any_eq_true, List.mem_map, beq_iff_eq, not_or, not_exists, not_and] at hne
+    have hA : ∀ a ∈ r.assign, Evaluates env a := fun a ha =>
+      evalFilter_ne_none_iff.mp fun hn => hne.1 none ⟨a, ha, hn⟩ rfl
+    have hI : ∀ g ∈ r.ignore, Evaluates env g := fun g hg =>
+      evalFilter_ne_none_iff.mp fun hn => hne.2 none ⟨g, hg, hn⟩ rfl
+    refine ⟨hA, hI, ?_⟩
+    simp only [Option.some.injEq] at h
+    subst h
+    simp only [Bool.and_eq_true, Bool.or_eq_true, List.isEmpty_iff, List.any_eq_true, List.mem_map, beq_iff_eq,
+      Bool.not_eq_true', Matches]
+    constructor
+    · rintro ⟨hass, hig⟩
+      refine ⟨?_, ?_⟩
+      · rcases hass with h0 | ⟨x, ⟨a, ha, rfl⟩, hx⟩
+        · exact Or.inl h0
+        · exact Or.inr ⟨a, ha, evalFilter_some_true_iff.mp hx⟩
+      · intro g hg hgt
+        have : (r.ignore.any fun x => evalFilter env x == some true) = true := by
+          simp only [List.any_eq_true, beq_iff_eq]
+          exact ⟨g, hg, evalFilter_some_true_iff.mpr hgt⟩
+        simp only [List.any_map] at hig
+        rw [Bool.eq_false_iff] at hig
+        exact hig (by simpa [Function.comp] using this)
+    · rintro ⟨hass, hig⟩
+      refine ⟨?_, ?_⟩
+      · rcases hass with h0 | ⟨a, ha, hat⟩
+        · exact Or.inl h0
+        · exact Or.inr ⟨_, ⟨a, ha, rfl⟩, evalFilter_some_true_iff.mpr hat⟩
+      · rw [Bool.eq_false_iff]
+        intro hany
+        simp only [List.any_eq_true, List.mem_map, beq_iff_eq] at hany
+        obtain ⟨x, ⟨g, hg, rfl⟩, hx⟩ := hany
+        exact hig g hg (evalFilter_some_true_iff.mp hx)
+
+/-- where the declarative reading is defined, evaluating the combined filter gives the same answer -/
+theorem declInst_eq {w : World} {id : Nat} {r : Rule} {t : Val} {i : Inst} {o : Outcome}
+    (h : declInst w id r t i = some o) : evalInstance w false id r t i = o := by
+  unfold declInst at h
+  simp only [Option.map_eq_some_iff] at h
+  obtain ⟨b, hb, rfl⟩ := h
+  obtain ⟨hA, hI, hm⟩ := matchDecl_spec hb
+  obtain ⟨b', hb'⟩ := filter_evaluates hA hI
+  have : b' = b := by
+    have h1 := filter_truth hb'
+    cases b <;> cases b' <;> simp_all
+  subst this
+  simp only [evalInstance, Bool.false_eq_true, if_false, hb']
+  cases b' <;> rfl
+
+theorem declRule_eq {w : World} {id : Nat} {r : Rule} {t : Val} (h : (declRule w id r t).all Option.isSome = true) :
+    declRule w id r t = (evalRule w false id r t).map some := by
+  unfold declRule evalRule at *
+  cases his : instances r t with
+  | none => simp [his] at h
+  | some is =>
+    simp only [his, List.map_map] at h ⊢
+    apply List.map_congr_left
+    intro i hi
+    simp only [List.all_eq_true, List.mem_map] at h
+    have := h _ ⟨i, hi, rfl⟩
+    obtain ⟨o, ho⟩ := Option.isSome_iff_exists.mp this
+    simp [Function.comp, ho, declInst_eq ho]
+
+theorem mem_targets_iff {inv : Inventory} {t : Val} {ty : TgtType} :
+    t ∈ targets inv ty ↔ (t ∈ allTargets inv ∧ tgtOf t = some ty) := by
+  constructor
+  · intro ht
+    cases ty with
+    | host =>
+      obtain ⟨n, rfl⟩ := mem_targets_host ht
+      exact ⟨by simp only [allTargets, List.mem_append]; exact Or.inl ht, rfl⟩
+    | service =>
+      obtain ⟨a, b, rfl⟩ := mem_targets_service ht
+      exact ⟨by simp only [allTargets, List.mem_append]; exact Or.inr ht, rfl⟩
+  · rintro ⟨h1, h2⟩; exact mem_allTargets_tgt h1 h2
+
+theorem mem_unwrap {d : List (Option Outcome)} {o : Outcome} : o ∈ unwrap d ↔ some o ∈ d := by
+  simp [unwrap, List.mem_filterMap]
+
+theorem mem_declAll {w : World} {rules : Rules} {inv : Inventory} {x : Option Outcome} :
+    x ∈ declAll w rules inv ↔ ∃ p ∈ rules, ∃ t ∈ targets inv p.2.tgt, x ∈ declRule w p.1 p.2 t := by
+  simp only [declAll, List.mem_flatMap]
+
+theorem declAll_defined_rule {w : World} {rules : Rules} {inv : Inventory}
+    (h : (declAll w rules inv).all Option.isSome = true) {p : Nat × Rule} (hp : p ∈ rules) {t : Val}
+    (ht : t ∈ targets inv p.2.tgt) : (declRule w p.1 p.2 t).all Option.isSome = true := by
+  simp only [List.all_eq_true] at h ⊢
+  exact fun x hx => h x (mem_declAll.mpr ⟨p, hp, t, ht, hx⟩)
+
+/-- Where the declarative reading is defined everywhere, it lists exactly the outcomes of plain evaluation. -/
+theorem unwrap_declAll_iff {w : World} {rules : Rules} {inv : Inventory}
+    (h : (declAll w rules inv).all Option.isSome = true) (o : Outcome) :
+    o ∈ unwrap (declAll w rules inv) ↔ o ∈ plainOutcomes w rules inv := by
+  rw [mem_unwrap, mem_declAll, mem_plainOutcomes]
+  constructor
+  · rintro ⟨p, hp, t, ht, hx⟩
+    rw [declRule_eq (declAll_defined_rule h hp ht)] at hx
+    simp only [List.mem_map, Option.some.injEq, exists_eq_right] at hx
+    obtain ⟨h1, h2⟩ := mem_targets_iff.mp ht
+    exact ⟨t, h1, p, hp, h2, hx⟩
+  · rintro ⟨t, h1, p, hp, h2, hx⟩
+    have ht := mem_targets_iff.mpr ⟨h1, h2⟩
+    refine ⟨p, hp, t, ht, ?_⟩
+    rw [declRule_eq (declAll_defined_rule h hp ht)]
+    exact List.mem_map.mpr ⟨o, hx, rfl⟩
+
+theorem declInst_ne_error {w : World} {id : Nat} {r : Rule} {t : Val} {i : Inst} :
+    declInst w id r t i ≠ some .error := by
+  unfold declInst
+  cases matchDecl (instEnv w r t i) r with
+  | none => simp
+  | some b => cases b <;> simp
+
+theorem declAll_no_error {w : World} {rules : Rules} {inv : Inventory} :
+    some Outcome.error ∉ declAll w rules inv := by
+  rw [mem_declAll]
+  rintro ⟨p, _, t, _, hx⟩
+  unfold declRule at hx
+  cases his : instances p.2 t with
+  | none => simp [his] at hx
+  | some is =>
+    simp only [his, List.mem_map] at hx
+    obtain ⟨i, _, hi⟩ := hx
+    exact declInst_ne_error hi
+
+set_option linter.unusedSimpArgs false in
+/-- **the declarative expectation is what plain evaluation creates**: where the property's reading is defined
+    (nothing raises in either round), the full plain load is accepted and creates exactly the expected set. -/
+theorem expectedCreated_spec {w : World} {rules : Rules} {inv : Inventory} {exp : List Created}
+    (h : expectedCreated w rules inv = some exp) :
+    ∃ l, plainFull w rules inv = .accepted l ∧ ∀ c, c ∈ exp ↔ c ∈ l := by
+  unfold expectedCreated at h
+  simp only at h
+  split at h
+  · cases h
+  · next h1 =>
+    split at h
+    · cases h
+    · next h2 =>
+      simp only [Bool.not_eq_true, Bool.not_eq_false] at h1 h2
+      simp only [Bool.not_eq_eq_eq_not, Bool.not_true, Bool.not_eq_false] at h1 h2
+      cases h
+      have e1 := unwrap_declAll_iff h1
+      have hinv : InvEquiv (extend inv (unwrap (declAll w rules inv))) (extend inv (plainOutcomes w rules inv)) :=
+        extend_equiv fun o _ => e1 o
+      have e2 := unwrap_declAll_iff h2
+      have e3 : ∀ o, o ∈ unwrap (declAll w rules (extend inv (unwrap (declAll w rules inv)))) ↔
+          o ∈ plainOutcomes w rules (extend inv (plainOutcomes w rules inv)) := fun o =>
+        (e2 o).trans (plainOutcomes_equiv w (fun _ => Iff.rfl) hinv o)
+      have hne : ¬ (plainOutcomes w rules (extend inv (plainOutcomes w rules inv))).any Outcome.isError = true := by
+        rw [any_isError, ← e3, mem_unwrap]
+        exact declAll_no_error
+      refine ⟨_, by simp only [plainFull, plain, loadResult, hne, if_false]; rfl, fun c => ?_⟩
+      rw [mem_created, mem_created, e3]
+
+/-! ### the model's trace -/
+
+def obsOf : LoadResult → Obs
+  | .rejected => none
+  | .accepted l => some (l.map render)
+
+/-- what the model says the harness observes: as written = with the index, wrapped = plain evaluation;
+    the thread count does not enter the model -/
+def modelObs (w : World) (rules : Rules) (inv : Inventory) : LoadObs :=
+  { plain1 := obsOf (indexedFull w rules inv), wrap1 := obsOf (plainFull w rules inv)
+    plain16 := some (obsOf (indexedFull w rules inv)), wrap16 := some (obsOf (plainFull w rules inv)) }
+
+theorem sameSet_of_mem_iff {α : Type} [BEq α] [LawfulBEq α] {a b : List α} (h : ∀ x, x ∈ a ↔ x ∈ b) :
+    sameSet a b = true := by
+  simp only [sameSet, Bool.and_eq_true, List.all_eq_true, List.contains_iff_mem]
+  exact ⟨fun x hx => (h x).mp hx, fun x hx => (h x).mpr hx⟩
+
+theorem sameObs_refl {α : Type} [BEq α] [LawfulBEq α] (o : Option (List α)) : sameObs o o = true := by
+  cases o with
+  | none => rfl
+  | some l => exact sameSet_of_mem_iff fun _ => Iff.rfl
+
+theorem sameObs_of_equiv {a b : LoadResult} (h : a.Equiv b) : sameObs (obsOf a) (obsOf b) = true := by
+  cases a <;> cases b <;> simp only [LoadResult.Equiv] at h
+  · rfl
+  · next l₁ l₂ =>
+    apply sameSet_of_mem_iff
+    intro x
+    simp only [List.mem_map]
+    constructor
+    · rintro ⟨c, hc, rfl⟩; exact ⟨c, (h c).mp hc, rfl⟩
+    · rintro ⟨c, hc, rfl⟩; exact ⟨c, (h c).mpr hc, rfl⟩
+
+theorem coreEq_refl (o : ObjObs) : coreEq o o = true := by simp [coreEq]
+theorem scopeEq_refl (o : ObjObs) : scopeEq o o = true := by simp [scopeEq]
+
+theorem checkExact_of_mem_iff {exp l : List Created} (h : ∀ c, c ∈ exp ↔ c ∈ l) :
+    checkExact (exp.map render) (some (l.map render)) = none := by
+  have h1 : ((exp.map render).all fun e => (l.map render).any (coreEq e)) = true := by
+    simp only [List.all_eq_true, List.any_eq_true, List.mem_map]
+    rintro _ ⟨c, hc, rfl⟩
+    exact ⟨_, ⟨c, (h c).mp hc, rfl⟩, coreEq_refl _⟩
+  have h2 : ((l.map render).all fun o => (exp.map render).any fun e => coreEq e o) = true := by
+    simp only [List.all_eq_true, List.any_eq_true, List.mem_map]
+    rintro _ ⟨c, hc, rfl⟩
+    exact ⟨_, ⟨c, (h c).mpr hc, rfl⟩, coreEq_refl _⟩
+  have h3 : ((l.map render).all fun o => (exp.map render).any fun e => coreEq e o && scopeEq e o) = true := by
+    simp only [List.all_eq_true, List.any_eq_true, List.mem_map, Bool.and_eq_true]
+    rintro _ ⟨c, hc, rfl⟩
+    exact ⟨_, ⟨c, (h c).mpr hc, rfl⟩, coreEq_refl _, scopeEq_refl _⟩
+  simp only [checkExact, h1, h2, h3, Bool.not_true, Bool.false_eq_true, if_false]
+
+theorem indexedFull_equiv_plainFull (w : World) (rules : Rules) (inv : Inventory)
+    (hsafe : ∀ p ∈ rules, IndexSafe (extend inv (plainOutcomes w rules inv)) p.2) :
+    (indexedFull w rules inv).Equiv (plainFull w rules inv) := by
+  have hs0 : ∀ p ∈ rules, IndexSafe inv p.2 := fun p hp => (hsafe p hp).of_extend
+  have hinv : InvEquiv (extend inv (indexedOutcomes w rules inv)) (extend inv (plainOutcomes w rules inv)) :=
+    extend_equiv (indexedOutcomes_iff_plainOutcomes w hs0)
+  unfold indexedFull plainFull indexed plain
+  apply loadResult_equiv
+  intro o ho
+  rw [indexedOutcomes_equiv w (fun _ => Iff.rfl) hinv o]
+  exact indexedOutcomes_iff_plainOutcomes w hsafe o ho
+
+theorem model_load_meets_spec_aux (w : World) (rules : Rules) (inv : Inventory) (silentIf : List ObjObs → Bool)
+    (hsafe : ∀ p ∈ rules, IndexSafe (extend inv (plainOutcomes w rules inv)) p.2) :
+    specLoad w rules inv silentIf (modelObs w rules inv) = none := by
+  have heq := indexedFull_equiv_plainFull w rules inv hsafe
+  unfold specLoad modelObs
+  simp only [sameObs_of_equiv heq, Option.map_some, sameObs_refl, Option.getD_some, Bool.and_self, Bool.not_true,
+    Bool.false_eq_true, if_false]
+  cases hexp : expectedCreated w rules inv with
+  | none => simp [expectedObjs, hexp]
+  | some exp =>
+    simp only [expectedObjs, hexp, Option.map_some]
+    split
+    · rfl
+    · obtain ⟨l, hl, hmem⟩ := expectedCreated_spec hexp
+      rw [hl] at heq ⊢
+      cases hi : indexedFull w rules inv with
+      | rejected => rw [hi] at heq; exact absurd heq (by simp [LoadResult.Equiv])
+      | accepted l' =>
+        rw [hi] at heq
+        simp only [LoadResult.Equiv] at heq
+        simp only [obsOf]
+        rw [checkExact_of_mem_iff fun c => (hmem c).trans (heq c).symm, checkExact_of_mem_iff hmem]
+
+
+/-! ### since commits b11cb6d / 77a9c63 the side conditions always hold -/
+
+/-- A rule that the recogniser accepts has no `for` (applyrule-targeted.cpp:65-70), hence no loop variables and
+    exactly the instance `""` on every target. -/
+theorem indexSafe_all (inv : Inventory) (r : Rule) : IndexSafe inv r := by
+  intro ht
+  have hl : r.loop = none := by
+    unfold targetedNames at ht
+    split at ht
+    · simp at ht
+    · next h =>
+      cases hlo : r.loop with
+      | none => rfl
+      | some l => simp [Rule.fterm, hlo] at h
+  refine ⟨?_, ?_⟩
+  · cases htg : r.tgt <;> simp [NoShadow, boundNames, Rule.fkvar, Rule.fvvar, hl, htg]
+  · intro t _
+    simp [instances, forVal, Rule.fterm, Rule.fvvar, hl, instancesOf]
+
+theorem fvarsDisjoint_of_not_collide {ty : TgtType} {fvars : Option (List (String × Val))}
+    (h : fvarsCollide ty fvars = false) : FvarsDisjoint ty fvars := by
+  intro l hl p hp hmem
+  subst hl
+  simp only [fvarsCollide, List.any_eq_false] at h
+  exact h p hp (by simpa using hmem)
+
+/-! ### the API model meets `specApi` -/
+
+theorem sameObs_of_apiEquiv {a b : Option (List Val)} (h : ApiEquiv a b) : sameObs a b = true := by
+  cases a <;> cases b <;> simp only [ApiEquiv] at h
+  · rfl
+  · exact sameSet_of_mem_iff h
+
+theorem apiExpected_spec {w : World} {fvars : Option (List (String × Val))} {ty : TgtType} {e : Expr}
+    {inv : Inventory} {exp : List Val} (h : apiExpected w fvars ty e inv = some exp) :
+    ∃ l, apiSlow w fvars ty e inv = some l ∧ ∀ t, t ∈ exp ↔ t ∈ l := by
+  unfold apiExpected at h
+  simp only at h
+  split at h
+  · cases h
+  · next hdef =>
+    cases h
+    simp only [List.any_eq_true, List.mem_map, beq_iff_eq, not_exists, not_and] at hdef
+    let f : Val → Bool := fun t => evalFilter (apiEnv w (fvars.getD []) t) e == some true
+    have hev : ∀ t ∈ targets inv ty, evalFilter (apiEnv w (fvars.getD []) t) e = some (f t) := by
+      intro t ht
+      cases hv : evalFilter (apiEnv w (fvars.getD []) t) e with
+      | none => exact absurd rfl (hdef none ⟨t, ht, by simp [hv]⟩)
+      | some b => cases b <;> simp [f, hv]
+    refine ⟨(targets inv ty).filter f, foldr_slow _ hev, fun t => ?_⟩
+    simp only [List.mem_filterMap, List.mem_map, List.mem_filter]
+    constructor
+    · rintro ⟨x, ⟨t', ht', rfl⟩, hx⟩
+      rw [hev t' ht'] at hx
+      cases hf : f t' <;> simp [hf] at hx
+      subst hx
+      exact ⟨ht', hf⟩
+    · rintro ⟨ht, hf⟩
+      exact ⟨_, ⟨t, ht, rfl⟩, by rw [hev t ht, hf]; rfl⟩
+
+theorem model_api_meets_spec_aux (w : World) (fvars : Option (List (String × Val))) (ty : TgtType) (e : Expr)
+    (inv : Inventory) (heq : ApiEquiv (apiTargets w fvars ty e inv) (apiSlow w fvars ty e inv)) :
+    specApi w fvars ty e inv { fast := apiTargets w fvars ty e inv, slow := apiSlow w fvars ty e inv } = none := by
+  unfold specApi
+  simp only [sameObs_of_apiEquiv heq, Bool.not_true, Bool.false_eq_true, if_false]
+  cases hexp : apiExpected w fvars ty e inv with
+  | none => rfl
+  | some exp =>
+    obtain ⟨l, hl, hmem⟩ := apiExpected_spec hexp
+    simp only [hl]
+    have h1 : exp.all l.contains = true := by
+      simp only [List.all_eq_true, List.contains_iff_mem]; exact fun t ht => (hmem t).mp ht
+    have h2 : l.all exp.contains = true := by
+      simp only [List.all_eq_true, List.contains_iff_mem]; exact fun t ht => (hmem t).mpr ht
+    simp [h1, h2]
 
 end Icinga.C16
